@@ -21,7 +21,7 @@ from simkit.rng import seed_globals  # noqa: E402
 from simkit.world import Violation, result  # noqa: E402
 
 PROPERTY = "C06"
-RUNS = {"quick": 4000, "thorough": 200_000}
+RUNS = {"quick": 4000, "thorough": 600_000}
 WALL = {"quick": 45, "thorough": 1500}
 BATCH = {"quick": 25, "thorough": 200}
 SELFTEST_RUNS = 8
